@@ -306,6 +306,39 @@ func c01Hazards(c *fw.Ctx) {
 		}
 	}
 	c.State("receiver variables assigned between method lookup and call")
+	// built-ins and methods on text that is not ASCII, empty, or very long: every printf format of <= 4 symbols, split / case
+	// mapping / indexing / for-in with such strings
+	syms := []string{"%", "s", "f", "v", "-", "0", "3", "9", "x"}
+	texts := []string{"\"äö\"", "\"é\"", "\"\"", "\"日本語\"", "\"a\\tb\"", "\"\xff\xfe\""}
+	var fmts []string
+	var rec func(cur string, n int)
+	rec = func(cur string, n int) {
+		fmts = append(fmts, cur)
+		if n == 4 {
+			return
+		}
+		for _, sy := range syms {
+			rec(cur+sy, n+1)
+		}
+	}
+	rec("", 0)
+	for _, f := range fmts {
+		for _, t := range texts {
+			prog := "BEGIN { printf(\"" + f + "\", " + t + ", " + t + ", 1.5) }"
+			s := c01Spec{Form: "text", Program: prog, Fuzzing: true}
+			c.Do(func() any { return s }, func() *fw.Violation { return c01RunOne(c, s) })
+		}
+	}
+	for _, t := range texts {
+		for _, u := range texts {
+			for _, body := range []string{"print T.split(U), T.upper(), T.lower(), T.length()", "print T[0], T[1], T[-1], T[9]", "for (ch, off in T) { print ch, off, T[off] }", "print T ~ U, T + U, T < U, num(T), json(T)", "o = {}; o[T] = U; print o, o[T], o.pluck(T, U)", "print match (T) { U => 1, v => v }"} {
+				prog := "BEGIN { " + strings.ReplaceAll(strings.ReplaceAll(body, "T", t), "U", u) + " }"
+				s := c01Spec{Form: "text", Program: prog, Fuzzing: true}
+				c.Do(func() any { return s }, func() *fw.Violation { return c01RunOne(c, s) })
+			}
+		}
+	}
+	c.State("built-ins on text that is not ASCII")
 }
 
 func c01CLI(c *fw.Ctx, s c01Spec) *fw.Violation {
